@@ -248,6 +248,24 @@ pub fn run_bytes(input: &[u8], cfg: &Cfg) -> Outcome {
     }
 }
 
+/// As `run_bytes`, also reporting how many bytes had reached the writer when an error was returned.
+pub fn run_bytes_written(input: &[u8], cfg: &Cfg) -> (Outcome, usize) {
+    let tc = cfg.to_tc();
+    let mut out = Vec::new();
+    let r = in_subject(|| {
+        catch_unwind(AssertUnwindSafe(|| {
+            let mut rd = std::io::Cursor::new(input);
+            svgdx::transform_stream(&mut rd, &mut out, &tc)
+        }))
+    });
+    let n = out.len();
+    match r {
+        Ok(Ok(())) => (Outcome::Ok(out), n),
+        Ok(Err(e)) => (Outcome::Err(e.to_string()), n),
+        Err(p) => (Outcome::Panic(panic_msg(p)), n),
+    }
+}
+
 pub fn run_str(input: &str, cfg: &Cfg) -> Outcome {
     let tc = cfg.to_tc();
     let r = in_subject(|| catch_unwind(AssertUnwindSafe(|| svgdx::transform_str(input, &tc))));
